@@ -1071,7 +1071,7 @@ def flatten(repo) -> Optional[Inliner]:
     # helpers whose every call site was inlined disappear from the tables
     dropped = []
     for fi in inl.new:
-        if inl.inlined_sites.get(fi.qual) and not inl.left_sites.get(fi.qual) and not _referenced_otherwise(repo, fi):
+        if inl.inlined_sites.get(fi.qual) and not inl.left_sites.get(fi.qual) and not _referenced_otherwise(repo, fi) and not _still_called(repo, fi):
             owner = fi.cls.node if fi.cls is not None else fi.module.tree
             if fi.node in owner.body:
                 owner.body.remove(fi.node)
@@ -1103,6 +1103,19 @@ def flatten(repo) -> Optional[Inliner]:
         repo.modules[name].reindex()
     repo.refresh_class_index()
     return inl
+
+
+def _still_called(repo, fi) -> bool:
+    """Is there a call of the helper left that the inliner could not write out (inside a comprehension, a lambda, a
+    default value, a decorator ...)?  Such a helper stays defined."""
+    for m in repo.modules.values():
+        for c in ast.walk(m.tree):
+            if isinstance(c, ast.Call):
+                f = c.func
+                nm = f.attr if isinstance(f, ast.Attribute) else (f.id if isinstance(f, ast.Name) else None)
+                if nm == fi.name and not any(c is x for x in ast.walk(fi.node)):
+                    return True
+    return False
 
 
 def _referenced_otherwise(repo, fi) -> bool:
